@@ -232,6 +232,10 @@ class Runner:
     def do_noop(self, op):
         return None
 
+    def do_setopt(self, op):
+        self.objs[op["inst"]]["sm"].allow_event_without_transition = bool(op["allow"])
+        return None
+
     def do_drop(self, op):
         """Forget an instance (machine, model, listeners) and let it be collected."""
         tag = op["inst"]
